@@ -21,7 +21,7 @@ PROP = "C12"
 LEVEL = "exploration"
 TIERS = {
     "quick": dict(runs=3000, timeout=300, max_ops=20, shrink_seconds=120, shrink_steps=250),
-    "thorough": dict(runs=120000, timeout=600, max_ops=40, shrink_seconds=400, shrink_steps=800),
+    "thorough": dict(runs=80000, timeout=600, max_ops=40, shrink_seconds=400, shrink_steps=800),
 }
 
 SHAPES = ["scalar", "list", "lol", "loo", "obj"]
